@@ -1645,6 +1645,32 @@ func (e *Engine) builtin(st *State, x *ssa.Call, b *ssa.Builtin) AV {
 			}
 			return args[1]
 		}
+		if len(args) == 2 && isIntType(x.Type()) {
+			// a fresh term related to both operands: min(a,b) <= a, min(a,b) <= b
+			r0, ok0 := e.linRange(st, args[0])
+			r1, ok1 := e.linRange(st, args[1])
+			if ok0 && ok1 && !r0.empty() && !r1.empty() {
+				name := b.Name() + "(" + args[0].name() + "," + args[1].name() + ")"
+				var rng iset
+				if b.Name() == "min" {
+					rng = iset{{min64(r0.min(), r1.min()), min64(r0.max(), r1.max())}}
+				} else {
+					rng = iset{{max64(r0.min(), r1.min()), max64(r0.max(), r1.max())}}
+				}
+				res := e.derived(st, name, rng, x.Type())
+				for _, a := range args {
+					if a.Kind != KLin {
+						continue
+					}
+					if b.Name() == "min" {
+						st.atoms["lt("+a.name()+","+res.name()+")"] = false // res <= a
+					} else {
+						st.atoms["lt("+res.name()+","+a.name()+")"] = false // a <= res
+					}
+				}
+				return res
+			}
+		}
 	case "print", "println":
 		return AV{Kind: KTuple}
 	}
